@@ -4,7 +4,7 @@ from vlib import core
 
 THEOREMS = ['follows_doc', 'follows_doc_read', 'doc_covered', 'malformed_rejected', 'wellformed_accepted', 'wellFormed_iff_accepted',
             'never_request_on_reject', 'wire_length', 'ka_enforced', 'ka_enforced_value', 'ka_on_every_write', 'ka_nowhere_else', 'ka_idempotent',
-            'ka_only_setreaderconfig', 'ka_is_half_timeout', 'switch_matches_model', 'read_default_iff', 'write_default_iff',
+            'ka_only_setreaderconfig', 'ka_is_half_timeout', 'switch_matches_model', 'cases_tables_agree', 'read_default_iff', 'write_default_iff',
             'action_default_iff', 'codes_defined']
 MODULES = ['LLRP.Model.Command']
 RULE = ('real HandleReadCommands/HandleWriteCommands against a scripted reader recording every frame: reads = every list of 0-3 names '
@@ -88,6 +88,18 @@ def defect_class(r, e, o):
         return 'read:requests-sent-before-unknown-resource-rejected'
     if verb == 'cmd-write' and ofirst == 'reject' and e.startswith('req ') and names:
         return 'write:%s:documented-command-rejected' % names[0]
+    if verb == 'cmd-read' and e.startswith('req ') and ofirst in ('req', 'reject-after'):
+        ef, of = e.split(' ; '), o.replace('reject-after ', '').split(' ; ')
+        for i, n in enumerate(names):
+            if i >= len(of) or i >= len(ef) or ef[i] != of[i]:
+                return 'read:%s:wrong-request' % n
+    if verb == 'cmd-write' and e.startswith('req ') and ofirst in ('req', 'reject-after') and names:
+        act = [p.split(':')[-1] for p in params[1:2] if p.startswith('p:Action=str:')] if names[0] in ID_RES else []
+        ka = lambda x: [t for t in x.split(' ') if t.startswith('ka=')]
+        strip = lambda x: ' '.join(t for t in x.replace('reject-after ', '').split(' ') if not t.startswith(('ka=', 'payload=')))
+        if names[0] == 'ReaderConfig' and strip(e) == strip(o) and ka(e) != ka(o):
+            return 'write:ReaderConfig:keepalive-not-enforced'
+        return 'write:%s:wrong-request' % ':'.join(names[:1] + act)
     if verb == 'cmd-write' and e == 'reject' and o.startswith('req 1023 ') and names and names[0] in ('ReaderConfig', 'ROSpec', 'AccessSpec') + ID_RES:
         return 'write:%s:handled-as-custom-message' % names[0]
     if verb == 'cmd-write' and e == 'reject' and ofirst == 'req' and names:
@@ -118,7 +130,21 @@ def report(res, r, e, o):
 
 
 def explain(res, name, reason):
-    return None
+    """a broken switch tie is explained by the failing commands that name the resource / action of a differing case"""
+    if name != 'switch_matches_model':
+        return None
+    diff = core.oracle(['switch-diff'])[0]
+    res.notes.append('switch_matches_model: ' + diff)
+    labels = set(re.findall(r'\|"([^"|]*)"\|', diff)) | set(re.findall(r'/"([^"|]*)"\|', diff))
+    have = [v for v in res.violations if v['found_input']]
+    hits = []
+    for v in have:
+        body = json.load(open(v['replay']))
+        line = ' '.join(body.get('case') or [])
+        if any(('r:%s' % l) in line.split(' ') or line.endswith(':' + l) or (':%s ' % l) in line for l in labels):
+            hits.append(v['key'])
+    hits += [k for k, _ in res.known_hits if any(l in k for l in labels)]
+    return hits or None
 
 
 def replay(res, path):
